@@ -885,18 +885,35 @@ func denominatorSignRule(p *core.Program, r *core.Report, rule string, targets [
 // squared distance exceeds threshold squared.
 func rdpScanRule(p *core.Program, r *core.Report, rule string) {
 	r.Rule(rule, "in dpWorker every candidate i in (start, end) reaches the call of distanceFromSegmentSquared(a, b, p_i): no path through the scan loop's body returns to the loop head without that call (no cheap reject); the split test compares the maximum of those squared distances with threshold*threshold", 2)
-	fn := mustFn(p, r, rule, "xy", "dpWorker")
-	if fn == nil {
+	dw := mustFn(p, r, rule, "xy", "dpWorker")
+	if dw == nil {
 		return
 	}
+	// the function that measures candidates: dpWorker itself or a helper of the package it calls
 	var call *ssa.Call
-	for _, c := range eng.Calls(fn) {
-		if f := c.Common().StaticCallee(); f != nil && f.Name() == "distanceFromSegmentSquared" {
-			call, _ = c.(*ssa.Call)
+	fn := dw
+	var viaHelper *ssa.Call
+	findCall := func(f *ssa.Function) *ssa.Call {
+		for _, c := range eng.Calls(f) {
+			if g := c.Common().StaticCallee(); g != nil && g.Name() == "distanceFromSegmentSquared" {
+				cc, _ := c.(*ssa.Call)
+				return cc
+			}
+		}
+		return nil
+	}
+	if call = findCall(dw); call == nil {
+		for _, c := range eng.Calls(dw) {
+			if g := c.Common().StaticCallee(); g != nil && g.Pkg == dw.Pkg && len(g.Blocks) > 0 {
+				if cc := findCall(g); cc != nil {
+					call, fn = cc, g
+					viaHelper, _ = c.(*ssa.Call)
+				}
+			}
 		}
 	}
 	if call == nil {
-		r.Lost(rule, short(fn)+"/distance-call", "dpWorker no longer calls distanceFromSegmentSquared")
+		r.Lost(rule, short(dw)+"/distance-call", "dpWorker no longer calls distanceFromSegmentSquared (directly or through a helper of the package)")
 		return
 	}
 	// the scan loop: a phi i with step +1 whose bound test is `i < end`; body entry = true successor
@@ -939,33 +956,73 @@ func rdpScanRule(p *core.Program, r *core.Report, rule string) {
 			}
 		}
 	}
-	r.Check(bad == "", rule, short(fn)+"/every-candidate-measured", p.Pos(call.Pos()), true, "the distance call is on every path through the scan loop's body", bad)
-	// split test
+	r.Check(bad == "", rule, short(dw)+"/every-candidate-measured", p.Pos(call.Pos()), true, "the distance call is on every path through the scan loop's body", bad)
+	// split test (in dpWorker): the compared value is the running maximum of the measured distances - a phi chain
+	// fed by the distance call, or the result of the measuring helper whose returned value is such a chain
 	okSplit := false
-	thr := fn.Params[1]
-	for _, b := range fn.Blocks {
-		c, okc := eng.EdgeCmp(b, 0)
-		if !okc || c.Op != token.GTR {
-			continue
+	var thr ssa.Value
+	for _, prm := range dw.Params {
+		if b, ok := prm.Type().Underlying().(*types.Basic); ok && b.Info()&types.IsFloat != 0 {
+			thr = prm
 		}
-		if mul, ok := c.Y.(*ssa.BinOp); ok && mul.Op == token.MUL && mul.X == ssa.Value(thr) && mul.Y == ssa.Value(thr) {
-			if phi, ok := c.X.(*ssa.Phi); ok {
-				for _, e := range phi.Edges {
-					if e == ssa.Value(call) {
-						okSplit = true
-					}
-					if ph2, ok := e.(*ssa.Phi); ok {
-						for _, e2 := range ph2.Edges {
-							if e2 == ssa.Value(call) {
-								okSplit = true
+	}
+	var fedByCall func(v ssa.Value, f *ssa.Function, depth int, seen map[ssa.Value]bool) bool
+	fedByCall = func(v ssa.Value, f *ssa.Function, depth int, seen map[ssa.Value]bool) bool {
+		if v == nil || seen[v] || depth > 6 {
+			return false
+		}
+		seen[v] = true
+		switch x := v.(type) {
+		case *ssa.Call:
+			if x == call {
+				return true
+			}
+			if viaHelper != nil && x == viaHelper {
+				// some result of the helper is fed by the call
+				for _, b := range fn.Blocks {
+					for _, in := range b.Instrs {
+						if ret, ok := in.(*ssa.Return); ok {
+							for _, rv := range ret.Results {
+								if fedByCall(rv, fn, depth+1, map[ssa.Value]bool{}) {
+									return true
+								}
 							}
 						}
 					}
 				}
 			}
+		case *ssa.Phi:
+			for _, e := range x.Edges {
+				if fedByCall(e, f, depth+1, seen) {
+					return true
+				}
+			}
+		case *ssa.Extract:
+			return fedByCall(x.Tuple, f, depth+1, seen)
+		}
+		return false
+	}
+	for _, b := range dw.Blocks {
+		for edge := 0; edge < 2; edge++ {
+			c, okc := eng.EdgeCmp(b, edge)
+			if !okc {
+				continue
+			}
+			x, y, op := c.X, c.Y, c.Op
+			if op == token.LSS {
+				x, y, op = y, x, token.GTR
+			}
+			if op != token.GTR {
+				continue
+			}
+			if mul, ok := y.(*ssa.BinOp); ok && mul.Op == token.MUL && thr != nil && mul.X == thr && mul.Y == thr {
+				if fedByCall(x, dw, 0, map[ssa.Value]bool{}) {
+					okSplit = true
+				}
+			}
 		}
 	}
-	r.Check(okSplit, rule, short(fn)+"/split-test", p.Pos(fn.Pos()), true, "split iff max squared distance > threshold*threshold", "the split decision is not `maxDist > threshold*threshold` on the maximum of the measured squared distances")
+	r.Check(okSplit, rule, short(dw)+"/split-test", p.Pos(dw.Pos()), true, "split iff max squared distance > threshold*threshold", "the split decision is not `maxDist > threshold*threshold` on the maximum of the measured squared distances")
 }
 
 // controllingIfs returns the If blocks that decide whether blk executes: b controls blk when exactly one of b's
@@ -1489,12 +1546,32 @@ func rdpSingleDecisionRule(p *core.Program, r *core.Report, rule string) {
 	r.Check(n == 0, rule, short(sf)+"/no-float-decision", p.Pos(sf.Pos()), true, "no floating-point comparison", fmt.Sprintf("SimplifyFlatCoords compares floating-point values itself (%d sites, e.g. %s): vertices are kept or dropped by a criterion other than dpWorker's", n, pos))
 	nd, _ := floatCmps(dw)
 	r.Check(nd >= 1, rule, short(dw)+"/positive-control", p.Pos(dw.Pos()), true, "dpWorker compares the farthest distance with the threshold", "dpWorker no longer compares any float: the matcher or the algorithm changed")
-	var callers []string
-	for _, fn := range p.SrcFuncs(true) {
-		for _, c := range eng.Calls(fn) {
-			if c.Common().StaticCallee() == ds && fn != dw {
-				callers = append(callers, short(fn))
+	// callers of the distance kernel: dpWorker, or helpers whose only caller is dpWorker
+	callersOf := func(target *ssa.Function) []*ssa.Function {
+		var out []*ssa.Function
+		for _, fn := range p.SrcFuncs(true) {
+			for _, c := range eng.Calls(fn) {
+				if c.Common().StaticCallee() == target {
+					out = append(out, fn)
+					break
+				}
 			}
+		}
+		return out
+	}
+	var callers []string
+	for _, fn := range callersOf(ds) {
+		if fn == dw {
+			continue
+		}
+		okHelper := fn.Pkg == dw.Pkg
+		for _, up := range callersOf(fn) {
+			if up != dw {
+				okHelper = false
+			}
+		}
+		if !okHelper || len(callersOf(fn)) == 0 {
+			callers = append(callers, short(fn))
 		}
 	}
 	r.Check(len(callers) == 0, rule, short(ds)+"/only-caller-dpWorker", p.Pos(ds.Pos()), true, "called by dpWorker only", fmt.Sprintf("distanceFromSegmentSquared is also called by %v: a second place decides about vertices", callers))
